@@ -17,13 +17,13 @@
 (***************************************************************************)
 EXTENDS Ref
 
-CONSTANTS Scope, Branches(_), M, K, Emit, Tag, Labels,
+CONSTANTS Scope, Branches(_), M, K, Emit, Tag, Labels, Defs,
           StepRun   \* FALSE: only Pick (Productive on scopes whose engine model is infinite-state)
 
 VARIABLES ast, stream, cnt, need, phase, prod
 vars == <<ast, stream, cnt, need, phase, prod>>
 
-NoDefs == [x \in {} |-> x]
+NoDefs == Defs
 MinOf(a, b) == IF a < b THEN a ELSE b
 Has(st, b) == \E i \in 1..Len(st.u.trail) : st.u.trail[i] = b
 CountLabel(out, b) == Cardinality({i \in 1..Len(out) : Has(out[i], b)})
